@@ -6,6 +6,7 @@ def explore(run, lean):
     quick = run.tier == "quick"
     hsm_corr.explore(run, "C03", 1500 if quick else 20000, hosts=("plain", "instr", "queued"),
                      malformed_rate=0.0, exhaustive_n=(0 if quick else 0))
+    hsm_corr.explore_orthogonal(run, "C03", 200 if run.tier == "quick" else 4000)
     run.extra["rule"] = ("corpus witnesses first, then random charts (1-14 states, 40% deep chains, multi-level initial "
                          "transitions, per-state HANDLED/fall-through flags) with scripts of start_at + 1-6 ops on plain / "
                          "instrumented / queued hosts; thorough tier adds all trees with <=5 states x all (cur,S,T) x all single "
